@@ -45,12 +45,15 @@ def stripRoot (resolved root : Bytes) : Res Bytes :=
       | none => .panic
       | some c => if c == cSlash then .ok (resolved.take idx) else .ok resolved
 
+/-- `path` (`+= "?" + params` when the query encoder is not nil) -/
+def queryPath (rp : Bytes) (query : Option Bytes) : Bytes :=
+  match query with
+  | none => rp
+  | some q => rp ++ cQuest :: q
+
 /-- `(*Client).formatQueryUrl` -/
 def formatQueryUrl (hostUrl : URL) (root rp : Bytes) (query : Option Bytes) : Res URL :=
-  let path := match query with
-    | none => rp
-    | some q => rp ++ cQuest :: q
-  match parse path with
+  match parse (queryPath rp query) with
   | .ok u =>
     let resolved := resolvedPath hostUrl
     if resolved == [cSlash] then .ok (resolveReference hostUrl u)
